@@ -28,6 +28,8 @@ META['C13'] = {'engine': 'lifecycle', 'level_text': "rapid campaigns over sequen
 
 META['C14'] = {'engine': 'lifecycle', 'level_text': "rapid campaigns over pairs and sequences (P, P') of generated configurations, reference classification + ground truth of which instances were kept, terminated and launched with what; exploration", 'level_note': LIFE_NOTE, 'technique': "property-based testing (rapid): generated configuration pairs, reference classification + ground-truth events"}
 
+META['C10'] = {'engine': 'probes', 'level_text': "rapid campaigns: legality predicate over probe parameters, a step-by-step health/stop/relaunch model under injected probe outcomes, and the real prober against a scripted HTTP target; exploration", 'level_note': LIFE_NOTE + "; part (2) injects probe outcomes through the probe-result hook, part (3) runs the unmodified prober in real time", 'technique': "property-based testing (rapid): validity predicate + model-based checking of probe outcome sequences"}
+
 NOT_APPLICABLE = {}
 
 ENGINES = [
@@ -35,6 +37,8 @@ ENGINES = [
      "kind_free_text": "rapid stateful generation driving app.ProjectRunner through a fake commander (build tag verif); trace oracles in harness/oracle"},
     {"name": "logbuf", "path": "harness/logbuf", "serves_properties": ['C18'],
      "kind_free_text": "rapid + exhaustive enumeration over pclog.ProcessLogBuffer and the websocket log stream"},
+    {"name": "probes", "path": "harness/probes", "serves_properties": ['C10'],
+     "kind_free_text": "rapid campaigns over health.Probe / health.Prober and, in harness/lifecycle, injected probe outcomes"},
     {"name": "loadeng", "path": "harness/loadeng", "serves_properties": ['C07', 'C15', 'C16', 'C17'],
      "kind_free_text": "rapid + exhaustive enumeration over loader.Load / NewProjectRunner with reference implementations"},
 ]
